@@ -20,7 +20,9 @@ ATOLS = [0.02, 0.05, 0.1, 0.2]
 FRACS = [0.0, 0.01, 0.5, 0.99, 0.999]
 POSES = ["random", "identity", "axis90", "axis180"]
 GRID_CELLS = ["ortho", "tri+", "rot"]
-FOREIGN = ["S", "P", "Si"]                      # elements that occur in no pattern
+FOREIGN = ["S", "P", "Si"]
+LOOKALIKE = {"Cl": ["C"], "C": ["Cl", "Cu", "Co"], "Si": ["S"], "S": ["Si", "Sn"], "Br": ["B"], "N": ["Ni", "Na"], "H": ["Hf", "He"],
+             "O": ["Os"], "F": ["Fe"], "Cu": ["C"]}                      # elements that occur in no pattern
 
 
 def mk_pattern(pattern):
@@ -92,9 +94,11 @@ def add_decoy(rng, case, kind, atol):
     k = len(els)
     if kind == "wrongelem" and k >= 2:
         # right geometry, ONE element replaced (never the first atom: the start-atom test is a different code path)
-        j = rng.randrange(1, k)
+        j = rng.randrange(0, k)          # the first atom too: its element is tested by the start-atom selection
         others = [e for e in set(els) | set(FOREIGN) if e != els[j]]
-        els[j] = rng.choice(sorted(others))
+        # prefer look-alike symbols (one is a prefix / substring of the other: C~Cl~Cu, S~Si, B~Br, N~Ni, H~Hf)
+        alike = [e for e in LOOKALIKE.get(els[j], []) if e != els[j]]
+        els[j] = rng.choice(alike) if (alike and rng.random() < 0.6) else rng.choice(sorted(others))
         g = _place(rng, case, ppos, els, perturb=atol / 8 / math.sqrt(3))
     elif kind == "mirror" and k >= 4:
         g = _place(rng, case, fl.mirror(ppos), els, perturb=atol / 8 / math.sqrt(3))
